@@ -6,6 +6,7 @@ import (
 	"log/slog"
 	"os"
 	"runtime/pprof"
+	"strings"
 	"time"
 
 	"github.com/glebziz/fs_db/verifh/checks"
@@ -15,6 +16,7 @@ import (
 	"github.com/glebziz/fs_db/verifh/enum"
 	"github.com/glebziz/fs_db/verifh/hk"
 	"github.com/glebziz/fs_db/verifh/litmus"
+	"github.com/glebziz/fs_db/verifh/model"
 	"github.com/glebziz/fs_db/verifh/seq"
 	"github.com/glebziz/fs_db/verifh/small"
 )
@@ -59,6 +61,44 @@ func main() {
 		for _, v := range lr.Stats.Viol {
 			fmt.Println("  ", v.Sig, v.History, v.What)
 		}
+	case "seqrun":
+		// debugging aid: verifh seqrun <family> <params> <eager 0|1> <history>, history e.g. "S:a B0:RR S:a GC R0"
+		f := seq.Lookup(os.Args[2], os.Args[3])
+		var hist []seq.Op
+		lv := map[string]model.Level{"RU": model.RU, "RC": model.RC, "RR": model.RR, "SER": model.SER}
+		for _, tok := range strings.Fields(os.Args[5]) {
+			head, arg, _ := strings.Cut(tok, ":")
+			slot := 0
+			if len(head) > 1 && head != "GC" && head != "RO" {
+				fmt.Sscan(head[1:], &slot)
+			}
+			switch {
+			case head == "GC":
+				hist = append(hist, seq.Op{Kind: seq.GC})
+			case head == "RO":
+				hist = append(hist, seq.Op{Kind: seq.Reopen, Actor: model.Auto})
+			case head == "S":
+				hist = append(hist, seq.Op{Kind: seq.Set, Actor: model.Auto, Key: arg})
+			case head == "D":
+				hist = append(hist, seq.Op{Kind: seq.Delete, Actor: model.Auto, Key: arg})
+			case head[0] == 'B':
+				hist = append(hist, seq.Op{Kind: seq.Begin, Actor: slot, Level: lv[arg]})
+			case head[0] == 's':
+				hist = append(hist, seq.Op{Kind: seq.Set, Actor: slot, Key: arg})
+			case head[0] == 'd':
+				hist = append(hist, seq.Op{Kind: seq.Delete, Actor: slot, Key: arg})
+			case head[0] == 'C':
+				hist = append(hist, seq.Op{Kind: seq.Commit, Actor: slot})
+			case head[0] == 'R':
+				hist = append(hist, seq.Op{Kind: seq.Rollback, Actor: slot})
+			}
+		}
+		res, verdict := seq.RunOne(f, hist, os.Args[4] == "1")
+		fmt.Println(seq.HistoryString(hist), "verdict:", verdict)
+		if res != nil && res.Mismatch != nil {
+			fmt.Println("mismatch:", res.Mismatch.Sig, res.Mismatch.Error())
+		}
+		dbh.Cleanup()
 	case "enumcase":
 		// debugging aid: verifh enumcase <family> <params> <from> <to>
 		defer dbh.Cleanup()
